@@ -439,10 +439,22 @@ func rangeIndex(first, last, code []byte) (index int, ok bool) {
 }
 
 func (f *File) LookupCID(code []byte) CID {
+	if cid, ok := f.lookupMapped(code); ok {
+		return cid
+	}
+
+	// The code is not mapped anywhere in the chain: the notdef entries of
+	// this file apply before those of its parents.
+	return f.LookupNotdefCID(code)
+}
+
+// lookupMapped returns the CID a single or range of the file or of one of its
+// parents assigns to code; ok is false if no such entry exists.
+func (f *File) lookupMapped(code []byte) (CID, bool) {
 	for g := f; g != nil; g = g.Parent {
 		for _, s := range g.CIDSingles {
 			if bytes.Equal(s.Code, code) {
-				return s.Value
+				return s.Value, true
 			}
 		}
 
@@ -451,13 +463,10 @@ func (f *File) LookupCID(code []byte) CID {
 			if !ok {
 				continue
 			}
-			return r.Value + CID(index)
+			return r.Value + CID(index), true
 		}
 	}
-
-	// The code is not mapped anywhere in the chain: the notdef entries of
-	// this file apply before those of its parents.
-	return f.LookupNotdefCID(code)
+	return 0, false
 }
 
 func (f *File) LookupNotdefCID(code []byte) CID {
